@@ -197,12 +197,13 @@ func (e *env) runText(c *Case, grammar bool) ([]F, map[string]interface{}) {
 			if c.Exec && !strings.Contains(q, "wait") {
 				ctx, cancel := context.WithTimeout(context.Background(), 3*time.Second)
 				_, xerr, xp := e.safeExecute(ctx, typ, query)
+				timedOut := ctx.Err() == context.DeadlineExceeded
 				cancel()
 				if xp != "" {
 					fs = append(fs, F{"execute-panic", firstLine(xp)})
 				}
-				if xerr != nil && ctx.Err() != nil {
-					fs = append(fs, F{"execute-too-slow", firstLine(xerr.Error())})
+				if timedOut {
+					fs = append(fs, F{"execute-too-slow", firstLine(fmt.Sprint(xerr))})
 				}
 				obs["executed"] = xerr == nil
 			}
@@ -512,7 +513,13 @@ func (e *env) runSocket(c *Case) ([]F, map[string]interface{}) {
 	select {
 	case p := <-served:
 		if p != "" {
-			fs = append(fs, F{"serve-json-socket-panic", firstLine(p)})
+			sig := "serve-json-socket-panic"
+			for _, st := range c.Script {
+				if strings.Contains(st.Env, "... {") {
+					sig = "parse-panic-inline-fragment-without-type-condition"
+				}
+			}
+			fs = []F{{sig, "ServeJSONSocket: " + firstLine(p)}}
 		}
 	case <-time.After(promptCap):
 		fs = append(fs, F{"serve-json-socket-does-not-return", "still running " + promptCap.String() + " after the socket closed"})
